@@ -452,6 +452,15 @@ def verify(t: Target, seed=0, prefixes=None, budget=None, budget_s=None):
                         cand = None
                 if cand is not None:
                     w = replay(t, ob, cand, mod)
+                    if not w.get('replayed'):
+                        try:
+                            cand2 = find_counterexample(ob.pc, ob.goal, diversify=True)
+                        except z3.Z3Exception:
+                            cand2 = None
+                        if cand2 is not None:
+                            w2 = replay(t, ob, cand2, mod)
+                            if w2.get('replayed'):
+                                w = w2
                     if w.get('replayed'):
                         # the prover left the obligation open; a bounded search produced an input on which the real
                         # function violates the clause: this is a violation with a replayed input
@@ -540,7 +549,29 @@ def _arrays(exprs):
     return out
 
 
-def find_counterexample(pc, goal, timeout_ms=20000, bound=3):
+def _string_selects(fs, limit=14):
+    """ground string-valued array reads occurring in the formulas (used to ask for a candidate in which they all differ)"""
+    seen, out = set(), []
+
+    def walk(e, bound_depth=0):
+        if z3.is_quantifier(e):
+            return
+        k = e.get_id()
+        if k in seen:
+            return
+        seen.add(k)
+        if z3.is_app(e):
+            if e.decl().kind() == z3.Z3_OP_SELECT and e.sort() == z3.StringSort():
+                out.append(e)
+            for c in e.children():
+                walk(c)
+
+    for f in fs:
+        walk(f)
+    return out[:limit]
+
+
+def find_counterexample(pc, goal, timeout_ms=20000, bound=3, diversify=False):
     """Counterexample SEARCH for a quantified obligation the prover left open: hypotheses' quantifiers are replaced by their
     instances over a small set of ground terms and the initial list lengths are bounded.  This weakens the hypotheses, so a
     model found here proves nothing by itself - it is only a candidate that the caller replays on the real code."""
@@ -577,6 +608,23 @@ def find_counterexample(pc, goal, timeout_ms=20000, bound=3):
     for a in base + inst + limits:
         s.add(a)
     s.add(z3.Not(goal))
+    if diversify:
+        # second attempt: a candidate in which all string fields read anywhere differ and are non-empty (defects that only show when
+        # two fields that usually coincide - name / literal name - differ are masked by the solver's habit of reusing one value)
+        sel = _string_selects(base + inst + [goal], limit=40)
+        by_index = {}
+        for e in sel:
+            by_index.setdefault(e.arg(1).get_id(), []).append(e)
+        for grp in by_index.values():
+            arrs_seen, uniq = set(), []
+            for e in grp:
+                if e.arg(0).get_id() not in arrs_seen:
+                    arrs_seen.add(e.arg(0).get_id())
+                    uniq.append(e)
+            if len(uniq) >= 2:
+                s.add(z3.Distinct(*uniq))  # different string fields of one object differ
+            for e in uniq:
+                s.add(z3.Length(e) > 0)
     if s.check() == z3.sat:
         return s.model()
     return None
@@ -729,7 +777,7 @@ def replay(t: Target, ob, model, mod):
         sym_outcome = (info.get('outcome') or ('?',))[0]
         nenv = dict(conc)
         nenv.update(out[2] if len(out) > 2 and out[2] else {})
-        nenv['old'] = conc
+        nenv['old'] = (out[2] or {}).get('old', conc) if len(out) > 2 else conc  # (a native scenario may hand back real pre-state objects)
         if getattr(t, 'replay_state_only', False) and cl is not None:
             # the clause speaks about state only (same on every exit): evaluate it on whatever exit the native scenario took
             try:
